@@ -39,6 +39,7 @@ def large_cases(tier, rng):
     """beyond the small shapes: predicates of 20-40 clauses, queries with 10-60 answers, recursion 10-30 levels deep,
     lists of 9-16 elements, more requests than there are answers"""
     from gen.progs import fact, C, AND, OR, U, X, Y, Z, i
+    from lib.sx import flt
     out = []
     big = list(progs.LIB)
     for k in range(1, 41): big.append(fact("num", i(k)))
@@ -54,6 +55,17 @@ def large_cases(tier, rng):
           ([atom("reach"), i(20), V("$To")], 15), ([atom("pair"), V("$A"), V("$B")], 22), ([atom("many"), V("$M")], 30),
           ([atom("mem"), V("$E"), l16], 20), ([atom("app"), V("$P"), V("$S"), l9], 14), ([atom("len"), l16, V("$N")], 3),
           ([atom("app"), l9, l16, V("$R")], 3), ([atom("mem"), i(4), l16], 6)]
+    # numbers beyond the small ones: integers above 2^53 that differ by one, floats that differ in the last place
+    for k in (2**53, 2**53 + 1, 2**53 + 2, 2**62, 2**62 + 1): big.append(fact("stamp", i(k)))
+    for f in (0.3, 0.1 + 0.2, 0.1, 0.10000000000000002, 1e-17, 0.0): big.append(fact("fl", flt(f)))
+    A, B = V("$A"), V("$B")
+    big.append(rule(cplx("later", A, B), AND(C("stamp", A), C("stamp", B), bip("greater_than", A, B))))
+    big.append(rule(cplx("sames", A, B), AND(C("stamp", A), C("stamp", B), bip("equal", A, B))))
+    big.append(rule(cplx("notlater", A, B), AND(C("stamp", A), C("stamp", B), bip("less_than_or_equal", A, B))))
+    big.append(rule(cplx("fsame", A, B), AND(C("fl", A), C("fl", B), U(A, B))))
+    big.append(rule(cplx("fsum", A), AND(U(B, fn("add", flt(0.1), flt(0.2))), C("fl", B), U(A, B))))
+    qs += [([atom("later"), V("$A"), V("$B")], 14), ([atom("sames"), V("$A"), V("$B")], 8), ([atom("notlater"), V("$A"), V("$B")], 18),
+           ([atom("fsame"), V("$A"), V("$B")], 9), ([atom("fsum"), V("$S")], 3), ([atom("fl"), flt(0.3)], 3), ([atom("stamp"), i(2**53 + 1)], 3)]
     for q, n in qs:
         out.append((progs.single_query_case(big, q, n), "large"))
         out.append((progs.hist(big, [progs.build(0, q), "(solve-all 0)", "(ask 0)"]), "large-solve-all"))
